@@ -1,12 +1,12 @@
 (* C01 — stream "conc": a sequential set-up history, then kc pod handler calls (OnPodAdd /
    OnPodUpdate / OnPodDelete on pairwise distinct pods) issued from concurrent goroutines.
    input : sysMax(2) defMax(2) k kc, then k + kc operation records (format of Codec.v);
-   observable: the summaries once all goroutines have returned.
+   observable: the summaries and the root entry once all goroutines have returned.
    The model runs the concurrent calls one after the other in list order (by
    c01_any_interleaving every interleaving of their sections is consistent, and each pod's own
    cache entry only depends on its own handler). *)
 From Coq Require Import List ZArith Bool.
-From Verif Require Import Lib.Wire Lib.Vec2 C01.Model C01.Spec C01.Codec.
+From Verif Require Import Lib.Wire Lib.Vec2 C01.Model C01.Spec C01.Root C01.Codec.
 Import ListNotations.
 Open Scope Z_scope.
 
@@ -20,7 +20,7 @@ Definition decode_conc (inp : list Z) : vec * vec * list op * list op :=
 
 Definition run_case (inp : list Z) : list Z :=
   let '(sm, dm, setup, conc) := decode_conc inp in
-  observe (run (init sm dm) (setup ++ conc)).
+  xobserve (xrun (xinit sm dm) (setup ++ conc)).
 
 Definition is_rl (o : op) : bool :=
   match o with OpPodAdd _ _ | OpPodUpdate _ _ _ _ | OpPodDelete _ _ => true | _ => false end.
@@ -40,8 +40,10 @@ Definition prop_case (inp obs : list Z) : Z :=
   else let '(snap, leak, rest) := dec_snapshot (setup ++ conc) obs in
        if negb (leak =? 0) then 13
        else if negb (shapes_eqb (st_sh snap) (spec_shapes (st_sh (init sm dm)) (setup ++ conc))) then 14
-       else if negb (Nat.eqb (length rest) 0) then 99
-       else state_code snap.
+       else if negb (Nat.eqb (length rest) 8) then 99
+       else if negb (state_code snap =? 0) then state_code snap
+       else if negb (benign_history (init sm dm) (setup ++ conc)) then 0
+       else root_code snap (fst (dec_root rest)).
 
 Definition nontrivial_case (inp : list Z) : bool :=
   let '(sm, dm, setup, conc) := decode_conc inp in
